@@ -2,7 +2,10 @@
 //   iteradapt <maxlen>
 // Every container kind is its own case (BEGIN/END markers) so that a sanitizer report is
 // attributed to the kind that was being iterated.
+#include <forward_list>
 #include <memory>
+#include <set>
+#include <string_view>
 
 #include <nitro/lang/enumerate.hpp>
 #include <nitro/lang/fixed_vector.hpp>
@@ -801,6 +804,166 @@ static void overlap_checks()
     }
 }
 
+// other element and range TYPES (the int machinery above cannot express them): characters, strings, move-only
+// elements, proxy references, node containers with const elements, forward-only ranges, user-defined ranges, views
+struct OwnRange
+{
+    int data[4] = { 5, 6, 7, 8 };
+    int* begin()
+    {
+        return data;
+    }
+    int* end()
+    {
+        return data + 4;
+    }
+    const int* begin() const
+    {
+        return data;
+    }
+    const int* end() const
+    {
+        return data + 4;
+    }
+};
+
+template <typename R, typename V>
+static void expect_enum(const std::string& kind, R&& range, const std::vector<V>& want)
+{
+    std::size_t i = 0;
+    for (auto&& e : range)
+    {
+        if (i >= want.size())
+        {
+            viol("enumerate:" + kind + ":visits-more-than-size", "");
+            return;
+        }
+        if (e.index() != i)
+            viol("enumerate:" + kind + ":wrong-index", "position " + std::to_string(i));
+        if (!(static_cast<V>(e.value()) == want[i]))
+            viol("enumerate:" + kind + ":wrong-value", "position " + std::to_string(i));
+        ++i;
+    }
+    if (i != want.size())
+        viol("enumerate:" + kind + ":visits-fewer-than-size", std::to_string(i));
+    stats["other-type-ranges"]++;
+}
+
+template <typename R, typename V>
+static void expect_rev(const std::string& kind, R&& range, std::vector<V> want)
+{
+    std::reverse(want.begin(), want.end());
+    std::size_t i = 0;
+    for (auto&& x : range)
+    {
+        if (i >= want.size())
+        {
+            viol("reverse:" + kind + ":visits-more-than-size", "");
+            return;
+        }
+        if (!(static_cast<V>(x) == want[i]))
+            viol("reverse:" + kind + ":wrong-order", "position " + std::to_string(i));
+        ++i;
+    }
+    if (i != want.size())
+        viol("reverse:" + kind + ":visits-fewer-than-size", std::to_string(i));
+    stats["other-type-ranges"]++;
+}
+
+static void other_type_checks()
+{
+    using nitro::lang::enumerate;
+    using nitro::lang::reverse;
+    {
+        std::string s = "abcd";
+        const std::string cs = "xyz";
+        expect_enum<decltype(enumerate(s)), char>("std::string:lvalue", enumerate(s), { 'a', 'b', 'c', 'd' });
+        expect_enum<decltype(enumerate(cs)), char>("std::string:const", enumerate(cs), { 'x', 'y', 'z' });
+        expect_enum<decltype(enumerate(std::string("tmp"))), char>("std::string:rvalue", enumerate(std::string("tmp")), { 't', 'm', 'p' });
+        expect_rev<decltype(reverse(s)), char>("std::string:lvalue", reverse(s), { 'a', 'b', 'c', 'd' });
+        expect_rev<decltype(reverse(cs)), char>("std::string:const", reverse(cs), { 'x', 'y', 'z' });
+        expect_rev<decltype(reverse(std::string("tmp"))), char>("std::string:rvalue", reverse(std::string("tmp")), { 't', 'm', 'p' });
+        for (auto&& e : enumerate(s))
+            if (&e.value() != &s[e.index()])
+                viol("enumerate:std::string:lvalue:value-does-not-alias-the-element", "");
+        for (auto& ch : reverse(s))
+            ch = static_cast<char>(ch - 32);
+        if (s != "ABCD")
+            viol("reverse:std::string:lvalue:write-not-visible-in-container", s);
+        std::string_view sv = "view";
+        expect_enum<decltype(enumerate(sv)), char>("std::string_view", enumerate(sv), { 'v', 'i', 'e', 'w' });
+        expect_rev<decltype(reverse(sv)), char>("std::string_view", reverse(sv), { 'v', 'i', 'e', 'w' });
+    }
+    {
+        std::vector<std::string> vs{ "one", "", "three is a longer string than the small buffer" };
+        const auto cvs = vs;
+        expect_enum<decltype(enumerate(vs)), std::string>("std::vector<string>:lvalue", enumerate(vs), vs);
+        expect_enum<decltype(enumerate(cvs)), std::string>("std::vector<string>:const", enumerate(cvs), vs);
+        expect_enum<decltype(enumerate(std::vector<std::string>(vs))), std::string>("std::vector<string>:rvalue",
+                                                                                    enumerate(std::vector<std::string>(vs)), vs);
+        expect_rev<decltype(reverse(vs)), std::string>("std::vector<string>:lvalue", reverse(vs), vs);
+        expect_rev<decltype(reverse(cvs)), std::string>("std::vector<string>:const", reverse(cvs), vs);
+        expect_rev<decltype(reverse(std::vector<std::string>(vs))), std::string>("std::vector<string>:rvalue",
+                                                                                 reverse(std::vector<std::string>(vs)), vs);
+        for (auto&& e : enumerate(cvs))
+            if (&e.value() != &cvs[e.index()])
+                viol("enumerate:std::vector<string>:const:value-does-not-alias-the-element", "");
+        std::size_t k = cvs.size();
+        for (auto& x : reverse(cvs))
+            if (&x != &cvs[--k])
+                viol("reverse:std::vector<string>:const:value-does-not-alias-the-element", "");
+    }
+    {
+        std::vector<std::unique_ptr<int>> vp;
+        for (int i = 0; i < 4; ++i)
+            vp.push_back(std::make_unique<int>(i * 11));
+        std::size_t i = 0;
+        for (auto&& e : enumerate(vp))
+        {
+            if (e.index() != i || *e.value() != static_cast<int>(i) * 11 || &e.value() != &vp[i])
+                viol("enumerate:std::vector<unique_ptr>:lvalue:wrong-element", std::to_string(i));
+            ++i;
+        }
+        i = vp.size();
+        for (auto& p : reverse(vp))
+            if (&p != &vp[--i])
+                viol("reverse:std::vector<unique_ptr>:lvalue:wrong-element", std::to_string(i));
+        stats["other-type-ranges"] += 2;
+    }
+    {
+        std::set<int> st{ 3, 1, 2 };
+        expect_enum<decltype(enumerate(st)), int>("std::set", enumerate(st), { 1, 2, 3 });
+        expect_rev<decltype(reverse(st)), int>("std::set", reverse(st), { 1, 2, 3 });
+        std::forward_list<int> fl{ 4, 5, 6 };
+        expect_enum<decltype(enumerate(fl)), int>("std::forward_list", enumerate(fl), { 4, 5, 6 });
+        OwnRange own;
+        const OwnRange cown;
+        expect_enum<decltype(enumerate(own)), int>("user-defined-range:lvalue", enumerate(own), { 5, 6, 7, 8 });
+        expect_enum<decltype(enumerate(cown)), int>("user-defined-range:const", enumerate(cown), { 5, 6, 7, 8 });
+        for (auto&& e : enumerate(own))
+            e.value() += 1;
+        if (own.data[0] != 6 || own.data[3] != 9)
+            viol("enumerate:user-defined-range:lvalue:write-not-visible-in-container", "");
+    }
+    {
+        std::vector<long long> big{ 4294967296LL, -1, 9223372036854775807LL };
+        std::vector<double> dbl{ 0.5, -0.0, 1e300 };
+        expect_enum<decltype(enumerate(big)), long long>("std::vector<long long>", enumerate(big), big);
+        expect_rev<decltype(reverse(big)), long long>("std::vector<long long>", reverse(big), big);
+        expect_enum<decltype(enumerate(dbl)), double>("std::vector<double>", enumerate(dbl), dbl);
+        expect_rev<decltype(reverse(dbl)), double>("std::vector<double>", reverse(dbl), dbl);
+    }
+#ifndef ITER_NO_VECTOR_BOOL
+    {
+        std::vector<bool> vb{ true, false, false, true, true };
+        const auto cvb = vb;
+        expect_rev<decltype(reverse(vb)), bool>("std::vector<bool>:lvalue", reverse(vb), { true, false, false, true, true });
+        expect_rev<decltype(reverse(cvb)), bool>("std::vector<bool>:const", reverse(cvb), { true, false, false, true, true });
+        expect_enum<decltype(enumerate(cvb)), bool>("std::vector<bool>:const", enumerate(cvb), { true, false, false, true, true });
+    }
+#endif
+}
+
 template <typename F>
 static void kind_case(const std::string& name, F&& f)
 {
@@ -884,6 +1047,7 @@ int main(int argc, char** argv)
     });
     kind_case("initializer-list", [&] { ilist_checks(); });
     kind_case("overlapping-ranges", [&] { overlap_checks(); });
+    kind_case("other-element-and-range-types", [&] { other_type_checks(); });
     kind_case("copy-deref-range", [&] { custom_range_checks(lengths); });
     kind_case("manual-iteration", [&] {
         for (std::size_t n : lengths)
